@@ -116,6 +116,13 @@ func (c *FnCtx) initObject(st *State, ref string, t types.Type) {
 	}
 	p := Val{K: kPtr, T: types.NewPointer(t), Ref: ref, Idx: "0", Root: t}
 	c.store(st, p, c.zero(t))
+	for _, gi := range ghostInits[types.TypeString(t, nil)] {
+		sort := ghostSorts[gi[0]]
+		if sort == "" {
+			sort = "Int"
+		}
+		c.heapWrite(st, "G_"+gi[0], sort, ref, "0", gi[1])
+	}
 }
 
 func (c *FnCtx) nilCheck(st *State, p Val, pos token.Pos, what string) {
